@@ -33,7 +33,7 @@ class FortranRegularExpressions:
     SUB: Pattern = compile(r"[ ]*SUBROUTINE[ ]+(\w+)", I)
     END_SUB: Pattern = compile(r"SUBROUTINE", I)
     FUN: Pattern = compile(r"[ ]*FUNCTION[ ]+(\w+)", I)
-    RESULT: Pattern = compile(r"RESULT[ ]*\((\w*)\)", I)
+    RESULT: Pattern = compile(r"RESULT[ ]*\([ ]*(\w*)[ ]*\)", I)
     END_FUN: Pattern = compile(r"FUNCTION", I)
     MOD: Pattern = compile(r"[ ]*MODULE[ ]+(\w+)", I)
     END_MOD: Pattern = compile(r"MODULE", I)
